@@ -105,3 +105,20 @@ CHECKS["C14"] = {
         {"name": "mqttproxy", "pkg": "pkg/object/mqttproxy", "test": "TestVerifC14"},
     ],
 }
+
+CHECKS["C09"] = {
+    "level": "model_checking",
+    "technique": "explicit-state model checking (BFS over arrival sequences on the real limiters, observed-quantities oracle); filter reload differential in virtual time",
+    "level_text": "every arrival sequence up to the bound (6 gaps incl. exact period boundaries and multi-period idle gaps) for 12 policies on the real RateLimiter, plus AcquireN and the "
+                  "MQTT request+byte MultiRateLimiter, is checked against bookkeeping of release periods: per period <= limit releases, wait <= timeout, no wait while the arrival period has a "
+                  "spare permit, rejection only when every period up to the timeout horizon is full",
+    "level_note": "clock owned through ratelimiter.nowFunc; period 10ms; canonical state = remaining reservations + phase within the period + per-period release counts from now on",
+    "rule": "BFS per policy; state = canonical dump of the limiter's private fields and the oracle's bookkeeping; distinct_nontrivial = distinct outcome classes (admit-now, admit-wait-k-periods, reject)",
+    "explanation": "states = distinct canonical states; transitions = arrivals applied to a fresh real limiter after replaying the shortest path",
+    "bounds": {"quick": "<=8 arrivals (6 with AcquireN, 5 multi)", "thorough": "<=11 arrivals (8 with AcquireN, 7 multi)"},
+    "assumptions": ["time read only through nowFunc"],
+    "units": [
+        {"name": "ratelimiter", "pkg": "pkg/util/ratelimiter", "test": "TestVerifC09"},
+        {"name": "rlfilter", "pkg": "pkg/filters/ratelimiter", "test": "TestVerifC09filter", "workers": 4},
+    ],
+}
